@@ -51,10 +51,41 @@ def build():
                            ("cli/aws.py", "_ATHENA_WRITE", "ATHENA_WRITE")):
         out.append(coq_strs(coq, const_strs(module_assign(load(mod), name), name), f"{mod} {name}"))
 
-    s3 = in_tuples(func(load("cli/sqlite3.py"), "classify"), "sqlite3 flags")
-    out.append(coq_strs("SQLITE3_HELP_FLAGS", pick(s3, ["-help", "--help"], "sqlite3 help flags"), "cli/sqlite3.py classify: help/version tokens"))
+    s3mod = load("cli/sqlite3.py")
+    s3 = in_tuples(func(s3mod, "classify"), "sqlite3 flags")
     out.append(coq_strs("SQLITE3_NOARG_FLAGS", pick(s3, ["-append", "-ascii"], "sqlite3 no-arg flags"), "cli/sqlite3.py classify: options without argument"))
     out.append(coq_strs("SQLITE3_ONEARG_FLAGS", pick(s3, ["-cmd", "-init"], "sqlite3 one-arg flags"), "cli/sqlite3.py classify: options with one argument"))
+
+    def exact(members, what):
+        hits = [t for t in s3 if sorted(t) == sorted(members)]
+        if not hits:
+            raise TieBroken(f"sqlite3 classify: no literal tuple {members} ({what})")
+        return hits[0]
+
+    out.append(coq_strs("SQLITE3_HELP_FLAGS", exact(["-help", "-version"], "help flags"), "cli/sqlite3.py classify: no-arg options that set help_flag"))
+    out.append(coq_strs("SQLITE3_RO_FLAGS", exact(["-readonly", "-safe"], "read-only flags"), "cli/sqlite3.py classify: no-arg options that set readonly_flag"))
+    # the three guards are modelled by hand (Model/Sql.v); the tie is their literal text and flags
+    guards = {
+        "_TCL_VARIABLE": (r"[$@:#](?:[A-Za-z0-9_$\x80-\U0010ffff]|::)*\(", None),
+        "_VACUUM": (r"\bvacuum\b", "re.IGNORECASE"),
+        "_SHELL_FUNCTION": (r"\b(?:writefile|edit|load_extension)\s*\(", "re.IGNORECASE"),
+    }
+    for name, (pat, flag) in guards.items():
+        call = module_assign(s3mod, name)
+        ok = (isinstance(call, ast.Call) and call.args and isinstance(call.args[0], ast.Constant) and call.args[0].value == pat
+              and not call.keywords and ((flag is None and len(call.args) == 1) or
+                                         (flag is not None and len(call.args) == 2 and ast.unparse(call.args[1]) == flag)))
+        if not ok:
+            raise TieBroken(f"cli/sqlite3.py {name}: pattern/flags are no longer {pat!r} / {flag}")
+    out.append(coq_strs("SQLITE3_SHELL_FUNCTIONS", ["writefile", "edit", "load_extension"], "the alternatives of _SHELL_FUNCTION (checked above; their first letters differ, so the order of the alternation is immaterial)"))
+    # case-insensitive matching of the literal letters of those patterns: for each letter the code points that
+    # re.IGNORECASE lets it match (this interpreter; includes U+017F for s, U+212A for k ...)
+    everything = "".join(chr(c) for c in range(0x110000) if not 0xD800 <= c <= 0xDFFF)
+    letters = sorted(set("vacuum" + "writefile" + "edit" + "load_extension"))
+    ic = []
+    for ch in letters:
+        ic.append((ord(ch), sorted(ord(x) for x in re.findall(re.escape(ch), everything, re.IGNORECASE))))
+    out.append(_pairs("RE_ICASE", ic, "for each literal letter of the IGNORECASE patterns: the code points it matches"))
 
     # interpreter tables used by the three patterns and by str.upper()
     sp = ranges(lambda c: re.fullmatch(r"\s", c) is not None)
